@@ -18,7 +18,11 @@
      snap_pg = false : `for property_group in self._property_groups:`   (pinned tree; the body deletes from that list)
      snap_pg = true  : `for property_group in list(self._property_groups):`
      snap_ch = false : `for child in entity.children:` in remove_recursively (pinned; objects shrink that list in place)
-     snap_ch = true  : `for child in list(entity.children):`                                                            *)
+     snap_ch = true  : `for child in list(entity.children):`
+     pg_list_ok = false : ws.property_groups raises KeyError once a property group is dead (pinned H5Writer.remove_entity
+                          opens the flat container "PropertyGroups", which does not exist)
+     pg_list_ok = true  : H5Writer.remove_entity returns when the container is missing; the dead keys are dropped
+                          (fixes/C05-pg-listing.patch; found by a behavioural probe of the checked tree on every run)   *)
 From GV Require Import Prelude.Base Model.PGroups.
 
 Inductive kind := KGroup | KObject | KData | KPG.
@@ -33,9 +37,9 @@ Inductive outcome := Ok | Refused | Fuel | BadOp | ErrKey | Found | NotFound.
 Definition outcome_code (o : outcome) : nat :=
   match o with Ok => 0 | Refused => 1 | Fuel => 7 | BadOp => 8 | ErrKey => 2 | Found => 3 | NotFound => 4 end.
 
-Record cfg := { snap_pg : bool; snap_ch : bool }.
-Definition pinned : cfg := {| snap_pg := false; snap_ch := false |}.
-Definition repaired : cfg := {| snap_pg := true; snap_ch := true |}.
+Record cfg := { snap_pg : bool; snap_ch : bool; pg_list_ok : bool }.
+Definition pinned : cfg := {| snap_pg := false; snap_ch := false; pg_list_ok := false |}.
+Definition repaired : cfg := {| snap_pg := true; snap_ch := true; pg_list_ok := true |}.
 
 Record ent := { ekind : kind; par : nat; ch : list nat; pgs : list grp; adel : bool }.
 
@@ -264,7 +268,8 @@ Definition step (c : cfg) (w : st) (a : op) : st * outcome :=
       (* Workspace.remove_none_referents(registry, rtype) behind ws.groups / objects / data / property_groups *)
       let dead := filter (fun x => kind_eqb (ekind (E w x)) k && negb (memb x (held w))) (reg w) in
       match k with
-      | KPG => if is_nil dead then (w, Ok) else (w, ErrKey)
+      | KPG => if pg_list_ok c then (set_reg_held w (filter (fun x => negb (memb x dead)) (reg w)) (held w), Ok)
+               else if is_nil dead then (w, Ok) else (w, ErrKey)
       | _ =>
           let w1 := fold_left del_flat dead w in
           (set_reg_held w1 (filter (fun x => negb (memb x dead)) (reg w1)) (held w1), Ok)
